@@ -10,6 +10,7 @@ usage: tools/seeded.py <property> <name> <out-dir> <worktree> [--checks C01,C02]
    checks caught it) are stored under /verif/seeded/<name>/.
 Nothing is ever committed to /repo.
 """
+import fcntl
 import json
 import os
 import shutil
@@ -27,6 +28,13 @@ def run(cmd, cwd, env=None, timeout=3600):
 
 
 def run_checks(patch, checks):
+    # /repo is shared with sweeps and the mutant sweep: one writer at a time
+    with open("/var/tmp/repo.lock", "w") as lk:
+        fcntl.flock(lk, fcntl.LOCK_EX)
+        return run_checks_locked(patch, checks)
+
+
+def run_checks_locked(patch, checks):
     st, o = run("git status --porcelain --untracked-files=no", "/repo")
     if o.strip():
         print("/repo is not clean, refusing"); return None
